@@ -57,6 +57,8 @@ def core_mixed(t, nadds, kinds=('rm', 'rep', 'fwd', 'str', 'set')):
                 if tail[0] == 'add' and tail[2] is not None and tail[2] in (0, 1):
                     yield pre + [tail, list(tail)]                     # the same refused offer made twice
                 if tail[0] == 'rm':
+                    yield pre[:] + [['repself', tail[1]], tail]        # self-replacement, then the removal
+                    yield pre[:] + [['repself', tail[1]], ['rep', tail[1], w[tail[1] % k]]] if k else pre + [tail]
                     yield pre + [tail, ['rmgone', 0]]                  # remove with the stale handle afterwards
                     for s in alpha[:6]:
                         yield pre + [tail, ['rmgone', 0], ['add', s, None]]
@@ -98,11 +100,11 @@ def random_history(rnd, t, maxlen=10, profile='mixed'):
     else:
         seedwords = []
     weights = {
-        'mixed':     dict(add=6, fwd=1, rm=2, rep=1, set=1, str=1, rmgone=1),
+        'mixed':     dict(add=6, fwd=1, rm=2, rep=1, set=1, str=1, rmgone=1, repself=1),
         'addonly':   dict(add=10, fwd=0, rm=0, rep=0, set=0, str=0),
         'guided':    dict(add=8, fwd=0, rm=1, rep=0, set=0, str=1),
-        'failure':   dict(add=6, fwd=3, rm=1, rep=2, set=1, str=2, rmgone=2),
-        'removal':   dict(add=6, fwd=0, rm=4, rep=0, set=1, str=0),
+        'failure':   dict(add=6, fwd=3, rm=1, rep=2, set=1, str=2, rmgone=2, repself=1),
+        'removal':   dict(add=6, fwd=0, rm=4, rep=0, set=1, str=0, repself=1),
         'serialise': dict(add=6, fwd=0, rm=2, rep=0, set=0, str=4),
         'longrun':   dict(add=12, fwd=0, rm=1, rep=0, set=0, str=0),
         'shortcut':  dict(add=4, fwd=0, rm=1, rep=0, set=5, str=1),
@@ -120,6 +122,10 @@ def random_history(rnd, t, maxlen=10, profile='mixed'):
         k = rnd.choice(kinds)
         if k == 'rmgone':
             hist.append(['rmgone', rnd.randrange(4)])
+            continue
+        if k == 'repself':
+            if nlive:
+                hist.append(['repself', rnd.randrange(max(1, nlive))])
             continue
         if k == 'add':
             s = _pick_symbol(rnd, alpha, used, p_again)
@@ -174,3 +180,14 @@ def nadd_for(t, tier, small=12):
     if tier == 'quick':
         return 3 if a <= small else 2
     return 4 if a <= 8 else 3
+
+
+def core_str_then_change(t):
+    """one addition, a serialisation, one change of that child (remove / same-name replace / shortcut), a serialisation"""
+    alpha = ref.DFAS[t].alphabet
+    for s in alpha:
+        for ic in (False, True):
+            for change in (['rm', 0], ['rep', 0, s], ['repf', 0, s], ['set', s, 'el'], ['set', s, 'none']):
+                yield [['add', s, None], ['str', ic], list(change), ['str', False]]
+            for s2 in alpha[:8]:
+                yield [['add', s, None], ['str', ic], ['rm', 0], ['add', s2, None], ['str', False]]
